@@ -143,7 +143,7 @@ func (g *gen) errorType(name string, typs []types.Type) ([]types.Type, error) {
 	if !ok {
 		return nil, fmt.Errorf("%s, the first argument, %s, is not of type function", name, typs[0])
 	}
-	if !derive.IsError(typs[1]) {
+	if !derive.ImplementsError(typs[1]) {
 		return nil, fmt.Errorf("%s, the second argument, %s, is not of type error", name, typs[1])
 	}
 	if sig.Params().Len() != 0 {
